@@ -212,3 +212,16 @@ Theorem command_histories_transparent : forall content h c be,
   bke (snd (run_c (history_ops h) (mkst c be))) = snd (run_u (history_ops h) be).
 Proof. exact command_histories_transparent_lemma. Qed.
 Print Assumptions command_histories_transparent.
+
+(* Tree packs outside check (backup's parent trees, prune's and restore's tree walks): no
+   listing ever cleans them, but a command only reads packs that its index names, i.e. packs
+   the repository has.  For those, with cached packs that are the honest content or a
+   truncation of it (stale and truncated files; a stale pack that the repository still has
+   is the same pack), every sequence of partial reads is transparent and the cache keeps the
+   invariant — without any clean-up. *)
+Theorem indexed_pack_reads_transparent : forall content ops c be,
+  BeHonest content be -> PackPrefix content c -> Forall (indexed_pack_read be) ops ->
+  fst (run_c ops (mkst c be)) = fst (run_u ops be) /\
+  bke (snd (run_c ops (mkst c be))) = be /\ snd (run_u ops be) = be.
+Proof. exact indexed_pack_reads_transparent_lemma. Qed.
+Print Assumptions indexed_pack_reads_transparent.
